@@ -1,1 +1,825 @@
-//! Reference interpreters (R-PRED, R-DERIV, R-TREE) — see DESIGN.md.
+//! Reference interpreters: R-DERIV (all derivations of a string), R-PRED (predictive value-semantics
+//! interpreter for ordered choice / predicates), R-PREC (deep precedence filter) and R-TREE (expected CST
+//! and action log of a derivation). Nothing here looks at lelwel's tables.
+
+use crate::arena::{Arena, NodeId, K};
+use crate::bnf::Sets;
+use crate::{Grammar, Rx};
+use std::collections::{BTreeSet, HashMap};
+
+/// Derivation tree, structured like the regex it derives from.
+#[derive(Clone, Debug, PartialEq, Eq)]
+pub struct D {
+    pub node: NodeId,
+    pub kind: DK,
+}
+
+#[derive(Clone, Debug, PartialEq, Eq)]
+pub enum DK {
+    /// input position
+    Tok(usize),
+    /// application of a rule; None for an empty-bodied rule
+    App(usize, Option<Box<D>>),
+    Seq(Vec<D>),
+    /// alternation / ordered choice: index of the branch taken
+    Branch(usize, Box<D>),
+    /// iterations of `*` / `+`
+    Rep(Vec<D>),
+    Opt(Option<Box<D>>),
+    Par(Option<Box<D>>),
+    /// zero-width operator
+    Op,
+}
+
+// ------------------------------------------------------------------------------------------------
+// R-DERIV
+
+pub struct Deriv<'a> {
+    pub g: &'a Grammar,
+    pub a: &'a Arena,
+    pub input: &'a [usize],
+    /// cap on the number of derivations kept per (node, i, j)
+    pub cap: usize,
+    pub capped: bool,
+    memo: HashMap<(NodeId, usize, usize), std::rc::Rc<Vec<D>>>,
+    rule_memo: HashMap<(usize, usize, usize), std::rc::Rc<Vec<D>>>,
+    in_progress: BTreeSet<(usize, usize, usize)>,
+}
+
+impl<'a> Deriv<'a> {
+    pub fn new(g: &'a Grammar, a: &'a Arena, input: &'a [usize]) -> Self {
+        Deriv {
+            g,
+            a,
+            input,
+            cap: 400,
+            capped: false,
+            memo: HashMap::new(),
+            rule_memo: HashMap::new(),
+            in_progress: BTreeSet::new(),
+        }
+    }
+    /// all derivations of input[i..j] from rule r (as `App` nodes attributed to `at`)
+    pub fn rule(&mut self, r: usize, i: usize, j: usize) -> std::rc::Rc<Vec<D>> {
+        if let Some(v) = self.rule_memo.get(&(r, i, j)) {
+            return v.clone();
+        }
+        if !self.in_progress.insert((r, i, j)) {
+            // cyclic derivation (rule derives itself without consuming): ignored
+            return std::rc::Rc::new(vec![]);
+        }
+        let res = match self.a.roots[r] {
+            None => {
+                if i == j {
+                    vec![D {
+                        node: usize::MAX,
+                        kind: DK::App(r, None),
+                    }]
+                } else {
+                    vec![]
+                }
+            }
+            Some(root) => self
+                .node(root, i, j)
+                .iter()
+                .map(|b| D {
+                    node: usize::MAX,
+                    kind: DK::App(r, Some(Box::new(b.clone()))),
+                })
+                .collect(),
+        };
+        self.in_progress.remove(&(r, i, j));
+        let rc = std::rc::Rc::new(res);
+        // results computed while a cycle was cut are still complete for finitely ambiguous grammars
+        self.rule_memo.insert((r, i, j), rc.clone());
+        rc
+    }
+    fn push(&mut self, out: &mut Vec<D>, d: D) {
+        if out.len() < self.cap {
+            out.push(d);
+        } else {
+            self.capped = true;
+        }
+    }
+    pub fn node(&mut self, id: NodeId, i: usize, j: usize) -> std::rc::Rc<Vec<D>> {
+        if let Some(v) = self.memo.get(&(id, i, j)) {
+            return v.clone();
+        }
+        let n = &self.a.nodes[id];
+        let mut out: Vec<D> = vec![];
+        match &n.kind {
+            K::Tok(t) => {
+                if j == i + 1 && self.input[i] == *t {
+                    out.push(D {
+                        node: id,
+                        kind: DK::Tok(i),
+                    });
+                }
+            }
+            K::Ref(r) => {
+                for d in self.rule(*r, i, j).iter() {
+                    let DK::App(r, b) = &d.kind else { unreachable!() };
+                    out.push(D {
+                        node: id,
+                        kind: DK::App(*r, b.clone()),
+                    });
+                }
+            }
+            K::Concat => {
+                let kids = n.children.clone();
+                let seqs = self.seq(&kids, i, j);
+                for s in seqs {
+                    self.push(
+                        &mut out,
+                        D {
+                            node: id,
+                            kind: DK::Seq(s),
+                        },
+                    );
+                }
+            }
+            K::Alt | K::Choice => {
+                let kids = n.children.clone();
+                for (bi, k) in kids.iter().enumerate() {
+                    for d in self.node(*k, i, j).iter() {
+                        self.push(
+                            &mut out,
+                            D {
+                                node: id,
+                                kind: DK::Branch(bi, Box::new(d.clone())),
+                            },
+                        );
+                    }
+                }
+            }
+            K::Star | K::Plus => {
+                let body = n.children[0];
+                let min = if matches!(n.kind, K::Plus) { 1 } else { 0 };
+                let reps = self.reps(body, i, j, min);
+                for r in reps {
+                    self.push(
+                        &mut out,
+                        D {
+                            node: id,
+                            kind: DK::Rep(r),
+                        },
+                    );
+                }
+            }
+            K::Opt => {
+                if i == j {
+                    out.push(D {
+                        node: id,
+                        kind: DK::Opt(None),
+                    });
+                }
+                let body = n.children[0];
+                for d in self.node(body, i, j).iter() {
+                    // an empty derivation of the body is the same sentence; keep both (ambiguity is the
+                    // caller's business)
+                    self.push(
+                        &mut out,
+                        D {
+                            node: id,
+                            kind: DK::Opt(Some(Box::new(d.clone()))),
+                        },
+                    );
+                }
+            }
+            K::Paren => match n.children.first() {
+                None => {
+                    if i == j {
+                        out.push(D {
+                            node: id,
+                            kind: DK::Par(None),
+                        });
+                    }
+                }
+                Some(c) => {
+                    let c = *c;
+                    for d in self.node(c, i, j).iter() {
+                        self.push(
+                            &mut out,
+                            D {
+                                node: id,
+                                kind: DK::Par(Some(Box::new(d.clone()))),
+                            },
+                        );
+                    }
+                }
+            },
+            K::Op(_) => {
+                if i == j {
+                    out.push(D {
+                        node: id,
+                        kind: DK::Op,
+                    });
+                }
+            }
+        }
+        let rc = std::rc::Rc::new(out);
+        // a reference evaluated while its own rule is in progress over the same span was cut (cyclic
+        // derivation) and must not be remembered as "no derivation"; rule_memo covers references anyway
+        if !matches!(self.a.nodes[id].kind, K::Ref(_)) {
+            self.memo.insert((id, i, j), rc.clone());
+        }
+        rc
+    }
+    fn seq(&mut self, kids: &[NodeId], i: usize, j: usize) -> Vec<Vec<D>> {
+        if kids.is_empty() {
+            return if i == j { vec![vec![]] } else { vec![] };
+        }
+        let mut out = vec![];
+        for k in i..=j {
+            let firsts = self.node(kids[0], i, k);
+            if firsts.is_empty() {
+                continue;
+            }
+            let rests = self.seq(&kids[1..], k, j);
+            for f in firsts.iter() {
+                for r in &rests {
+                    if out.len() >= self.cap {
+                        self.capped = true;
+                        return out;
+                    }
+                    let mut v = vec![f.clone()];
+                    v.extend(r.iter().cloned());
+                    out.push(v);
+                }
+            }
+        }
+        out
+    }
+    /// iterations: each iteration consumes at least one token (empty iterations are not derivation steps a
+    /// parser can take repeatedly); `min` iterations required, an empty single iteration allowed for `+`
+    fn reps(&mut self, body: NodeId, i: usize, j: usize, min: usize) -> Vec<Vec<D>> {
+        let mut out = vec![];
+        if i == j {
+            if min == 0 {
+                out.push(vec![]);
+            } else {
+                for d in self.node(body, i, i).iter() {
+                    out.push(vec![d.clone()]);
+                }
+            }
+            return out;
+        }
+        for k in i + 1..=j {
+            let firsts = self.node(body, i, k);
+            if firsts.is_empty() {
+                continue;
+            }
+            let rests = if k == j {
+                vec![vec![]]
+            } else {
+                self.reps(body, k, j, 0)
+                    .into_iter()
+                    .filter(|r| !r.is_empty())
+                    .collect()
+            };
+            for f in firsts.iter() {
+                for r in &rests {
+                    if out.len() >= self.cap {
+                        self.capped = true;
+                        return out;
+                    }
+                    let mut v = vec![f.clone()];
+                    v.extend(r.iter().cloned());
+                    out.push(v);
+                }
+            }
+        }
+        out
+    }
+}
+
+// ------------------------------------------------------------------------------------------------
+// Recursive branches (Pratt rules) and R-PREC
+
+#[derive(Clone, Debug, PartialEq, Eq)]
+pub struct RecBranch {
+    /// index of the branch in the rule's top-level alternation
+    pub alt_index: usize,
+    /// precedence level: 0 = tightest
+    pub level: usize,
+    /// element index (within the Concat) of the governed left operand
+    pub left: Option<usize>,
+    /// element index of the governed right operand
+    pub right: Option<usize>,
+    /// element index of the operator element (element after the left operand) for left branches
+    pub op_elem: Option<usize>,
+    pub right_assoc: bool,
+}
+
+fn ignorable(r: &Rx) -> bool {
+    matches!(r, Rx::Pred(_) | Rx::Rename(_) | Rx::Elide | Rx::Action(_))
+}
+
+/// Recursive branches of rule `r` by definition (DESIGN.md appendix B).
+pub fn rec_branches(g: &Grammar, a: &Arena, sets: &Sets, r: usize) -> Vec<RecBranch> {
+    let mut out = vec![];
+    let Some(Rx::Alt(branches)) = &g.rules[r].body else {
+        return out;
+    };
+    let root = a.roots[r].unwrap();
+    let mut level = 0;
+    for (bi, b) in branches.iter().enumerate() {
+        let Rx::Concat(els) = b else { continue };
+        let rem: Vec<usize> = (0..els.len()).filter(|i| !ignorable(&els[*i])).collect();
+        if rem.is_empty() {
+            continue;
+        }
+        let left = (els[rem[0]] == Rx::Ref(r)).then_some(rem[0]);
+        let right = (rem.len() > 1 && els[*rem.last().unwrap()] == Rx::Ref(r)).then_some(*rem.last().unwrap());
+        if left.is_none() && right.is_none() {
+            continue;
+        }
+        let op_elem = left.and_then(|_| rem.get(1).copied());
+        let mut right_assoc = false;
+        if let (Some(_), Some(_), Some(op)) = (left, right, op_elem) {
+            let branch_node = a.nodes[root].children[bi];
+            let op_node = a.nodes[branch_node].children[op];
+            let f = &sets.first[op_node];
+            right_assoc = !f.is_empty() && f.iter().all(|t| g.right.contains(t));
+        }
+        out.push(RecBranch {
+            alt_index: bi,
+            level,
+            left,
+            right,
+            op_elem,
+            right_assoc,
+        });
+        level += 1;
+    }
+    out
+}
+
+pub struct Prec<'a> {
+    pub g: &'a Grammar,
+    /// recursive branches per rule
+    pub rec: Vec<Vec<RecBranch>>,
+}
+
+impl<'a> Prec<'a> {
+    pub fn new(g: &'a Grammar, a: &Arena, sets: &Sets) -> Self {
+        Prec {
+            g,
+            rec: (0..g.rules.len())
+                .map(|r| {
+                    let bs = rec_branches(g, a, sets, r);
+                    // only rules with at least one left-recursive branch are Pratt rules
+                    if bs.iter().any(|b| b.left.is_some()) {
+                        bs
+                    } else {
+                        vec![]
+                    }
+                })
+                .collect(),
+        }
+    }
+    pub fn is_pratt(&self, r: usize) -> bool {
+        !self.rec[r].is_empty()
+    }
+    /// if `d` is an application of a recursive branch of a Pratt rule: (rule, branch, elements)
+    fn application<'d>(&self, d: &'d D) -> Option<(usize, &RecBranch, &'d [D])> {
+        let DK::App(r, Some(body)) = &d.kind else { return None };
+        if self.rec[*r].is_empty() {
+            return None;
+        }
+        let DK::Branch(bi, inner) = &body.kind else { return None };
+        let b = self.rec[*r].iter().find(|b| b.alt_index == *bi)?;
+        let DK::Seq(els) = &inner.kind else { return None };
+        Some((*r, b, els))
+    }
+    fn rspine_ok(&self, rule: usize, t: &D, level: usize, left_assoc_same: bool) -> bool {
+        // every M on the right spine of t that has a governed right operand must be tighter, or of the same
+        // level when the branch is left-associative
+        let mut cur = t;
+        loop {
+            let Some((r, b, els)) = self.application(cur) else { return true };
+            if r != rule {
+                return true;
+            }
+            let Some(ri) = b.right else { return true };
+            if !(b.level < level || (b.level == level && left_assoc_same)) {
+                return false;
+            }
+            cur = &els[ri];
+        }
+    }
+    fn lspine_ok(&self, rule: usize, t: &D, level: usize, right_assoc_same: bool) -> bool {
+        let mut cur = t;
+        loop {
+            let Some((r, b, els)) = self.application(cur) else { return true };
+            if r != rule {
+                return true;
+            }
+            let Some(li) = b.left else { return true };
+            if !(b.level < level || (b.level == level && right_assoc_same)) {
+                return false;
+            }
+            cur = &els[li];
+        }
+    }
+    /// deep precedence conditions on the whole derivation
+    pub fn ok(&self, d: &D) -> bool {
+        if let Some((rule, b, els)) = self.application(d) {
+            if let Some(li) = b.left {
+                // same level allowed on the left iff the branch is left-associative (or has no right operand)
+                let left_assoc = !(b.right.is_some() && b.right_assoc);
+                if !self.rspine_ok(rule, &els[li], b.level, left_assoc) {
+                    return false;
+                }
+            }
+            if let Some(ri) = b.right {
+                let right_assoc = b.left.is_none() || b.right_assoc;
+                if !self.lspine_ok(rule, &els[ri], b.level, right_assoc) {
+                    return false;
+                }
+            }
+        }
+        match &d.kind {
+            DK::App(_, Some(b)) => self.ok(b),
+            DK::Seq(v) | DK::Rep(v) => v.iter().all(|x| self.ok(x)),
+            DK::Branch(_, b) => self.ok(b),
+            DK::Opt(Some(b)) | DK::Par(Some(b)) => self.ok(b),
+            _ => true,
+        }
+    }
+}
+
+// ------------------------------------------------------------------------------------------------
+// R-TREE
+
+#[derive(Clone, Debug, PartialEq, Eq)]
+pub enum ET {
+    Node(String, Vec<ET>),
+    /// token index (model)
+    Tok(usize),
+}
+
+impl ET {
+    pub fn render(&self, g: &Grammar, out: &mut String) {
+        match self {
+            ET::Tok(t) => {
+                out.push_str(&g.tokens[*t].name);
+                out.push(' ');
+            }
+            ET::Node(k, c) => {
+                out.push_str(k);
+                out.push('(');
+                for x in c {
+                    x.render(g, out);
+                }
+                out.push(')');
+            }
+        }
+    }
+}
+
+struct Frame {
+    out: Vec<ET>,
+    marks: HashMap<u32, usize>,
+    kind: String,
+    elide: bool,
+    rule: usize,
+}
+
+pub struct TreeBuilder<'a> {
+    pub g: &'a Grammar,
+    pub a: &'a Arena,
+    pub input: &'a [usize],
+    /// action log: "rule_n" in visit order
+    pub actions: Vec<String>,
+}
+
+impl<'a> TreeBuilder<'a> {
+    pub fn new(g: &'a Grammar, a: &'a Arena, input: &'a [usize]) -> Self {
+        TreeBuilder {
+            g,
+            a,
+            input,
+            actions: vec![],
+        }
+    }
+    /// tree contribution of an application of rule r (with body derivation) to its parent
+    pub fn app(&mut self, r: usize, body: Option<&D>, force_node: bool) -> Vec<ET> {
+        let mut f = Frame {
+            out: vec![],
+            marks: HashMap::new(),
+            kind: self.g.rules[r].name.clone(),
+            elide: false,
+            rule: r,
+        };
+        if let Some(b) = body {
+            self.visit(b, &mut f);
+        }
+        if !force_node && (self.g.rules[r].elided || f.elide) {
+            f.out
+        } else {
+            vec![ET::Node(f.kind, f.out)]
+        }
+    }
+    fn visit(&mut self, d: &D, f: &mut Frame) {
+        match &d.kind {
+            DK::Tok(i) => f.out.push(ET::Tok(self.input[*i])),
+            DK::App(r, b) => {
+                let sub = self.app(*r, b.as_deref(), false);
+                f.out.extend(sub);
+            }
+            DK::Seq(v) | DK::Rep(v) => {
+                for x in v {
+                    self.visit(x, f)
+                }
+            }
+            DK::Branch(_, b) => self.visit(b, f),
+            DK::Opt(b) | DK::Par(b) => {
+                if let Some(b) = b {
+                    self.visit(b, f)
+                }
+            }
+            DK::Op => {
+                let K::Op(op) = &self.a.nodes[d.node].kind else {
+                    unreachable!()
+                };
+                match op {
+                    Rx::Rename(n) => f.kind = n.clone(),
+                    Rx::Elide => f.elide = true,
+                    Rx::Marker(n) => {
+                        f.marks.insert(*n, f.out.len());
+                    }
+                    Rx::Create(n, name) => {
+                        let from = match n {
+                            Some(n) => *f.marks.get(n).unwrap_or(&0),
+                            None => 0,
+                        };
+                        let from = from.min(f.out.len());
+                        let inner: Vec<ET> = f.out.drain(from..).collect();
+                        let name = name
+                            .clone()
+                            .unwrap_or_else(|| self.g.rules[f.rule].name.clone());
+                        f.out.push(ET::Node(name, inner));
+                    }
+                    Rx::Action(n) => self
+                        .actions
+                        .push(format!("{}_{}", self.g.rules[f.rule].name, n)),
+                    _ => {}
+                }
+            }
+        }
+    }
+    /// expected tree for entry point `entry` (index into g.entries()) given the derivation of the entry rule
+    pub fn root(&mut self, entry: usize, d: &D) -> ET {
+        let DK::App(r, b) = &d.kind else { unreachable!() };
+        if entry == 0 {
+            // the start rule is the root node itself
+            let mut v = self.app(*r, b.as_deref(), true);
+            v.pop().unwrap()
+        } else {
+            ET::Node("part".to_string(), self.app(*r, b.as_deref(), false))
+        }
+    }
+}
+
+// ------------------------------------------------------------------------------------------------
+// R-PRED
+
+#[derive(Clone, Copy, Debug, PartialEq, Eq)]
+pub enum Mode {
+    Normal,
+    Attempt,
+}
+
+#[derive(Clone, Debug, PartialEq, Eq)]
+pub enum Stop {
+    /// mismatch inside an attempt: the alternative is abandoned
+    Fail,
+    /// mismatch in normal mode: a diagnostic is due, the input is rejected
+    Error,
+}
+
+pub struct Pred<'a> {
+    pub g: &'a Grammar,
+    pub a: &'a Arena,
+    pub sets: &'a Sets,
+    pub input: &'a [usize],
+    /// terminal used as lookahead at end of input
+    pub eof: usize,
+    /// answers: consultation indices (predicates and assertions share the counter) that deviate from the default
+    pub deviations: &'a [usize],
+    pub consulted: usize,
+    /// a failing assertion in normal mode: diagnostic, parse continues
+    pub assertion_diag: bool,
+    /// number of alternatives abandoned
+    pub abandoned: usize,
+    /// recursion guard
+    depth: usize,
+    pub overflow: bool,
+}
+
+impl<'a> Pred<'a> {
+    pub fn new(g: &'a Grammar, a: &'a Arena, sets: &'a Sets, input: &'a [usize], eof: usize, deviations: &'a [usize]) -> Self {
+        Pred {
+            g,
+            a,
+            sets,
+            input,
+            eof,
+            deviations,
+            consulted: 0,
+            assertion_diag: false,
+            abandoned: 0,
+            depth: 0,
+            overflow: false,
+        }
+    }
+    fn la(&self, i: usize) -> usize {
+        self.input.get(i).copied().unwrap_or(self.eof)
+    }
+    fn consult(&mut self) -> bool {
+        let i = self.consulted;
+        self.consulted += 1;
+        !self.deviations.contains(&i)
+    }
+    fn stop(mode: Mode) -> Stop {
+        match mode {
+            Mode::Attempt => Stop::Fail,
+            Mode::Normal => Stop::Error,
+        }
+    }
+    /// the guard of a branch / loop body holds (consults the script for `?n`)
+    fn guard_ok(&mut self, id: NodeId) -> bool {
+        match self.a.guard(id) {
+            None => true,
+            Some(Rx::Pred(None)) => true,
+            Some(Rx::Pred(Some(_))) => self.consult(),
+            _ => true,
+        }
+    }
+    /// Top level: Some(derivation) iff the input is accepted without any diagnostic.
+    pub fn parse(&mut self, rule: usize) -> Option<D> {
+        let (j, d, _) = self.rule(rule, 0, Mode::Normal).ok()?;
+        if j != self.input.len() || self.assertion_diag || self.overflow {
+            return None;
+        }
+        Some(D {
+            node: usize::MAX,
+            kind: d,
+        })
+    }
+    fn rule(&mut self, r: usize, i: usize, mode: Mode) -> Result<(usize, DK, Mode), Stop> {
+        match self.a.roots[r] {
+            None => Ok((i, DK::App(r, None), mode)),
+            Some(root) => {
+                let (j, d, m) = self.run(root, i, mode)?;
+                Ok((j, DK::App(r, Some(Box::new(d))), m))
+            }
+        }
+    }
+    fn run(&mut self, id: NodeId, i: usize, mode: Mode) -> Result<(usize, D, Mode), Stop> {
+        self.depth += 1;
+        if self.depth > 200 {
+            self.overflow = true;
+            self.depth -= 1;
+            return Err(Stop::Error);
+        }
+        let r = self.run_inner(id, i, mode);
+        self.depth -= 1;
+        r
+    }
+    fn run_inner(&mut self, id: NodeId, i: usize, mode: Mode) -> Result<(usize, D, Mode), Stop> {
+        let n = &self.a.nodes[id];
+        let mk = |kind: DK| D { node: id, kind };
+        match &n.kind {
+            K::Tok(t) => {
+                if self.la(i) == *t && i < self.input.len() {
+                    Ok((i + 1, mk(DK::Tok(i)), mode))
+                } else {
+                    Err(Self::stop(mode))
+                }
+            }
+            K::Ref(r) => {
+                let (j, d, m) = self.rule(*r, i, mode)?;
+                Ok((j, mk(d), m))
+            }
+            K::Concat => {
+                let mut pos = i;
+                let mut mode = mode;
+                let mut v = vec![];
+                for c in n.children.clone() {
+                    let (j, d, m) = self.run(c, pos, mode)?;
+                    pos = j;
+                    mode = m;
+                    v.push(d);
+                }
+                Ok((pos, mk(DK::Seq(v)), mode))
+            }
+            K::Alt => {
+                let la = self.la(i);
+                for (bi, c) in n.children.clone().into_iter().enumerate() {
+                    if self.sets.predict(c).contains(&la) && self.guard_ok(c) {
+                        let (j, d, m) = self.run(c, i, mode)?;
+                        return Ok((j, mk(DK::Branch(bi, Box::new(d))), m));
+                    }
+                }
+                Err(Self::stop(mode))
+            }
+            K::Choice => {
+                let la = self.la(i);
+                let kids = n.children.clone();
+                let last = kids.len() - 1;
+                for (bi, c) in kids.iter().enumerate() {
+                    if bi == last {
+                        break;
+                    }
+                    if self.sets.predict(*c).contains(&la) {
+                        let saved = (self.consulted, self.assertion_diag);
+                        match self.run(*c, i, Mode::Attempt) {
+                            // once the choice is over the parser behaves as if only the chosen alternative
+                            // had been tried: the mode of the context is restored
+                            Ok((j, d, _)) => return Ok((j, mk(DK::Branch(bi, Box::new(d))), mode)),
+                            Err(Stop::Fail) => {
+                                // consultations made inside an abandoned attempt did happen (callbacks are
+                                // pure); the script counter keeps running
+                                let _ = saved;
+                                self.abandoned += 1;
+                            }
+                            Err(Stop::Error) => return Err(Stop::Error),
+                        }
+                    }
+                }
+                let c = kids[last];
+                if self.sets.predict(c).contains(&la) {
+                    let (j, d, _) = self.run(c, i, Mode::Normal)?;
+                    Ok((j, mk(DK::Branch(last, Box::new(d))), mode))
+                } else {
+                    Err(Stop::Error)
+                }
+            }
+            K::Star | K::Plus => {
+                let body = n.children[0];
+                let mut pos = i;
+                let mut mode = mode;
+                let mut v = vec![];
+                if matches!(n.kind, K::Plus) {
+                    let (j, d, m) = self.run(body, pos, mode)?;
+                    pos = j;
+                    mode = m;
+                    v.push(d);
+                }
+                loop {
+                    let la = self.la(pos);
+                    if self.sets.first[body].contains(&la) && self.guard_ok(body) {
+                        let (j, d, m) = self.run(body, pos, mode)?;
+                        if j == pos {
+                            // no progress: a conflict-free grammar cannot get here
+                            return Err(Stop::Error);
+                        }
+                        pos = j;
+                        mode = m;
+                        v.push(d);
+                    } else if self.sets.follow[id].contains(&la) {
+                        break;
+                    } else {
+                        return Err(Self::stop(mode));
+                    }
+                }
+                Ok((pos, mk(DK::Rep(v)), mode))
+            }
+            K::Opt => {
+                let body = n.children[0];
+                let la = self.la(i);
+                if self.sets.first[body].contains(&la) && self.guard_ok(body) {
+                    let (j, d, m) = self.run(body, i, mode)?;
+                    Ok((j, mk(DK::Opt(Some(Box::new(d)))), m))
+                } else if self.sets.follow[id].contains(&la) {
+                    Ok((i, mk(DK::Opt(None)), mode))
+                } else {
+                    Err(Self::stop(mode))
+                }
+            }
+            K::Paren => match n.children.first().copied() {
+                None => Ok((i, mk(DK::Par(None)), mode)),
+                Some(c) => {
+                    let (j, d, m) = self.run(c, i, mode)?;
+                    Ok((j, mk(DK::Par(Some(Box::new(d)))), m))
+                }
+            },
+            K::Op(op) => match op {
+                Rx::Commit => Ok((i, mk(DK::Op), Mode::Normal)),
+                Rx::Assert(_) => {
+                    if self.consult() {
+                        Ok((i, mk(DK::Op), mode))
+                    } else if mode == Mode::Attempt {
+                        Err(Stop::Fail)
+                    } else {
+                        self.assertion_diag = true;
+                        Ok((i, mk(DK::Op), mode))
+                    }
+                }
+                _ => Ok((i, mk(DK::Op), mode)),
+            },
+        }
+    }
+}
